@@ -192,6 +192,37 @@ Definition forget (bt : btable) : table := map (fun hr => (fst hr, map fst (snd 
 
 Definition e_invalid_cmd : N := 12%N.     (* "route: invalid command: ..." (NewTableCustom only; 11 is C05's e_invalid_host) *)
 
+(* ---- bufio.Scanner's token limit (route.Parse, parse_new.go:72-100).  C05's [parse] is the parser on
+        texts whose lines the scanner can hold; this composition adds the limit.  A line - the bytes
+        between two newlines, a trailing \r included - of bufio.MaxScanTokenSize = 65536 bytes or more
+        ends the scan (65535 bytes + newline still fit; checked on the real code for lines in the
+        middle, at the end with and without newline, CRLF, comment and blank lines).  The lines before
+        it have been parsed in order, so an earlier syntax error wins.  Since /repo 5dd66bf Parse
+        reports scanner.Err() ("token too long"); before, it returned the definitions of the lines
+        before the long one and nil: [scan_parse_unrepaired]. ---- *)
+Definition e_line_too_long : N := 13%N.   (* "line n: bufio.Scanner: token too long" *)
+Definition e_no_defs : N := 14%N.         (* "route: no route definitions" (NewTableCustom(nil), since 618785e) *)
+Definition max_scan_token : N := 65536%N.
+Definition too_long (l : str) : bool := (max_scan_token <=? N.of_nat (length l))%N.
+Fixpoint short_prefix (ls : list str) : list str :=       (* the lines before the first too long one *)
+  match ls with
+  | [] => []
+  | l :: ls' => if too_long l then [] else l :: short_prefix ls'
+  end.
+Definition has_long_line (text : str) : bool := existsb too_long (split_byte text 10).
+
+Section Scan.
+  Variable pweight : str -> outcome wt.
+  Definition scan_parse (text : str) : outcome (list def) :=
+    let ls := split_byte text 10 in
+    if existsb too_long ls
+    then do _ <- parse_lines pweight (short_prefix ls); Err e_line_too_long
+    else parse pweight text.
+  (* route.Parse before 5dd66bf: the scan just ends *)
+  Definition scan_parse_unrepaired (text : str) : outcome (list def) :=
+    parse_lines pweight (short_prefix (split_byte text 10)).
+End Scan.
+
 Section Build.
   Variable pweight : str -> outcome wt.       (* strconv.ParseFloat *)
   Variable canon : str -> option str.         (* url.Parse(dst).String() *)
@@ -242,7 +273,10 @@ Section Build.
 
   (* route.NewTable *)
   Definition full_build (text : str) : outcome btable :=
-    do ds <- parse pweight text; build_defs ds.
+    do ds <- scan_parse pweight text; build_defs ds.
+  (* NewTable before 5dd66bf (refutation theorem only) *)
+  Definition full_build_scan_unrepaired (text : str) : outcome btable :=
+    do ds <- scan_parse_unrepaired pweight text; build_defs ds.
 
   (* route.NewTableCustom: the definitions arrive decoded from JSON; [None] = a Cmd that is none
      of the three commands ("route: invalid command") *)
@@ -254,6 +288,12 @@ Section Build.
     end.
   Definition custom_build (ds : list (option def)) : outcome btable :=
     do t <- custom_from [] ds; ring_table (sort_table t).
+  (* the argument is a pointer: nil (a poll body `null`) is an error since /repo 618785e *)
+  Definition custom_build_ptr (o : option (list (option def))) : outcome btable :=
+    match o with
+    | None => Err e_no_defs
+    | Some ds => custom_build ds
+    end.
 
   (* every route state a command sequence goes through (weighTargets ran on it) and the routes of
      the final table; uses C05's command layer only *)
@@ -474,10 +514,16 @@ Fixpoint decode_carry_unrepaired (prev : list rawdef) (js : list jdef) : list ra
 (* one poll: decode, NewTableCustom, SetTable *)
 Definition custom_poll (cbuild : list (option def) -> outcome btable) (cell : btable) (js : list jdef)
   : option btable := custom_step cbuild cell (map to_def (decode_fresh js)).
-(* the body of a poll may also be the JSON value null: Decode leaves Routes = nil and
-   NewTableCustom(nil) dereferences it (custom.go:77 -> table.go `range *defs`): the polling
-   goroutine panics, and it has no recover (finding F-C02-10, open) *)
+(* the body of a poll may also be the JSON value null: Decode leaves Routes = nil.  Since /repo
+   618785e NewTableCustom(nil) is an error (the table stays, through SetTable's nil guard); before, it
+   dereferenced nil and the polling goroutine, which has no recover, panicked (F-C02-10) *)
 Definition custom_poll_body (cbuild : list (option def) -> outcome btable) (cell : btable)
+           (body : option (list jdef)) : option btable :=
+  match body with
+  | None => Some (set_table btable cell None)
+  | Some js => custom_poll cbuild cell js
+  end.
+Definition custom_poll_body_unrepaired (cbuild : list (option def) -> outcome btable) (cell : btable)
            (body : option (list jdef)) : option btable :=
   match body with
   | None => None
